@@ -207,13 +207,19 @@ class Env:
 
     # ---------------------------------------------------------------- run
     def run_native(self, exe, args=(), timeout=10, stdin=None):
+        def once(limit):
+            return subprocess.run([exe] + list(args), capture_output=True, timeout=limit,
+                                  **({"input": stdin.encode()} if stdin is not None else {"stdin": subprocess.DEVNULL}),
+                                  cwd=os.path.dirname(exe))
         try:
-            r = subprocess.run([exe] + list(args), capture_output=True, timeout=timeout,
-                               **({"input": stdin.encode()} if stdin is not None else {"stdin": subprocess.DEVNULL}),
-                               cwd=os.path.dirname(exe))
-        except subprocess.TimeoutExpired as ex:
-            return {"cls": "TIMEOUT", "rc": None, "out": (ex.stdout or b"").decode("utf-8", "replace"),
-                    "err": (ex.stderr or b"").decode("utf-8", "replace")}
+            r = once(timeout)
+        except subprocess.TimeoutExpired:
+            try:                        # as in compile(): a time-out is confirmed one at a time before it is reported
+                with _RETRY_LOCK:
+                    r = once(max(6 * timeout, 60))
+            except subprocess.TimeoutExpired as ex:
+                return {"cls": "TIMEOUT", "rc": None, "out": (ex.stdout or b"").decode("utf-8", "replace"),
+                        "err": (ex.stderr or b"").decode("utf-8", "replace")}
         out = r.stdout.decode("utf-8", "replace")
         err = r.stderr.decode("utf-8", "replace")
         if r.returncode == 0:
@@ -231,12 +237,17 @@ class Env:
     def run_wasm(self, wasm, timeout=20):
         js = os.path.join(VERIF, "harness", "js", "runwasm.js")
         rt = os.path.join(REPO, "runtime", "wasm", "runtime.js")
+        def once(limit):
+            return subprocess.run(["node", js, rt, wasm], capture_output=True, timeout=limit, stdin=subprocess.DEVNULL)
         try:
-            r = subprocess.run(["node", js, rt, wasm], capture_output=True, timeout=timeout,
-                               stdin=subprocess.DEVNULL)
-        except subprocess.TimeoutExpired as ex:
-            return {"cls": "TIMEOUT", "rc": None, "out": (ex.stdout or b"").decode("utf-8", "replace"),
-                    "err": (ex.stderr or b"").decode("utf-8", "replace")}
+            r = once(timeout)
+        except subprocess.TimeoutExpired:
+            try:
+                with _RETRY_LOCK:
+                    r = once(max(6 * timeout, 60))
+            except subprocess.TimeoutExpired as ex:
+                return {"cls": "TIMEOUT", "rc": None, "out": (ex.stdout or b"").decode("utf-8", "replace"),
+                        "err": (ex.stderr or b"").decode("utf-8", "replace")}
         out = r.stdout.decode("utf-8", "replace")
         err = r.stderr.decode("utf-8", "replace")
         if r.returncode == 0:
